@@ -83,6 +83,8 @@ class MockCA:
             "order_polls_before_ready": 0,
             "order_polls_before_valid": 0,
             "chain_len": 2,
+            "chain_order": "normal",   # "reversed": issuers first, end-entity last
+            "order_ident_case": None,  # "upper": DNS names upper-cased in the order objects the CA serves
             "chain_pad": 0,       # > 0: that many extra names in every upper certificate (a BIG chain)
             "valid_secs": 90 * 86400,
             "authz_status": {},           # identifier value -> initial status
@@ -603,7 +605,13 @@ class MockCA:
                 if "pem" in r:
                     self.obj_ctr += 1
                     cid = str(self.obj_ctr)
-                    self.certs[cid] = r["pem"].replace("-----\n-----BEGIN", "-----\n" + o["chain_sep"] + "-----BEGIN")
+                    pem = r["pem"]
+                    if o.get("chain_order") == "reversed":
+                        # the issuing certificates FIRST, the end-entity certificate last (RFC 8555 §9.1
+                        # demands the end-entity certificate first: a client must not install this)
+                        blocks = [b + "-----END CERTIFICATE-----\n" for b in pem.split("-----END CERTIFICATE-----\n") if b.strip()]
+                        pem = "".join(reversed(blocks))
+                    self.certs[cid] = pem.replace("-----\n-----BEGIN", "-----\n" + o["chain_sep"] + "-----BEGIN")
                     od["cert"] = self.url("/cert/" + cid)
                     od["status"] = "valid"
                 else:
@@ -614,7 +622,12 @@ class MockCA:
 
     def order_body(self, oid):
         od = self.orders[oid]
-        b = {"status": od["status"], "identifiers": od["identifiers"], "authorizations": od["authz"],
+        idents = od["identifiers"]
+        if self.o.get("order_ident_case") == "upper":
+            # a CA may spell the names of ITS order object differently from the request (DNS is
+            # case-insensitive): the client's CSR must still carry the CONFIGURED names
+            idents = [dict(i, value=i["value"].upper()) if i.get("type") == "dns" else i for i in idents]
+        b = {"status": od["status"], "identifiers": idents, "authorizations": od["authz"],
              "finalize": self.url("/finalize/" + oid), "expires": "2099-01-01T00:00:00Z"}
         if od.get("cert"):
             b["certificate"] = od["cert"]
